@@ -206,3 +206,302 @@ Proof.
     + apply put_ok; [now apply Hok1|]. subst acc'. apply info_change_ok.
     + exists q2. rewrite Hq2. auto.
 Qed.
+
+(* ---------------------------------------------------------------- commits *)
+(* states with the same observations *)
+Definition peqv (p1 p2 : pstate) : Prop :=
+  (forall a, p_accounts p1 a = p_accounts p2 a) /\ (forall a k, pslot p1 a k = pslot p2 a k) /\
+  (forall h, p_contracts p1 h = p_contracts p2 h) /\ p_ts p1 = p_ts p2.
+
+Lemma ext_eqv d p q p2 q2 : ext d p q -> peqv p2 p -> peqv q2 q -> ext d p2 q2.
+Proof.
+  intros [HeA HeS HeC HeT] (A1 & S1 & C1 & T1) (A2 & S2 & C2 & T2). apply mkExt.
+  - intros a. rewrite A1, A2. apply HeA.
+  - intros a k. rewrite S1, S2, A1. apply HeS.
+  - intros h. rewrite C1, C2. apply HeC.
+  - congruence.
+Qed.
+
+Lemma update_or_not_eqv p a ch :
+  peqv (match ch with [] => p | _ => p_update_storage p a ch end) (p_update_storage p a ch).
+Proof.
+  destruct ch as [|x l]; [|repeat split].
+  repeat split; intros; try reflexivity. symmetry. apply p_update_nil.
+Qed.
+
+Definition slot_ext (B : key -> word) (k : key) (x y : option word) : Prop :=
+  y = x \/ (x = None /\ y = Some (B k)).
+
+Lemma insert_slot_ext B ch : forall ps qs,
+  (forall k, slot_ext B k (ps k) (qs k)) -> forall k, slot_ext B k (insert_present ps ch k) (insert_present qs ch k).
+Proof.
+  induction ch as [|[k' [o v]] ch IH]; intros ps qs H k; simpl; [apply H|].
+  apply IH. intros j. unfold fset. destruct (j =? k'); [left; reflexivity|apply H].
+Qed.
+
+Lemma update_storage_ext d p q a ch :
+  ext d p q -> ext d (p_update_storage p a ch) (p_update_storage q a ch).
+Proof.
+  intros [HeA HeS HeC HeT]. apply mkExt.
+  - exact HeA.
+  - intros b k. rewrite !pslot_update. destruct (N.eqb_spec b a) as [->|]; [|apply HeS].
+    apply (insert_slot_ext (base_of d a (p_accounts p a)) ch (fun k => pslot p a k) (fun k => pslot q a k)).
+    intros j. apply HeS.
+  - exact HeC.
+  - exact HeT.
+Qed.
+
+(* wipe the storage of [a] and replace its account, on both sides *)
+Lemma wipe_put_ext d p q a acc' :
+  ext d p q -> ext d (p_put (p_remove_storage p a) a acc') (p_put (p_remove_storage q a) a acc').
+Proof.
+  intros [HeA HeS HeC HeT]. apply mkExt.
+  - intros b. simpl. unfold fset. destruct (b =? a); [now left|apply HeA].
+  - intros b k.
+    change (pslot (p_put (p_remove_storage q a) a acc') b k) with (pslot (p_remove_storage q a) b k).
+    change (pslot (p_put (p_remove_storage p a) a acc') b k) with (pslot (p_remove_storage p a) b k).
+    rewrite !pslot_remove. destruct (N.eqb_spec b a) as [->|Hb]; [now left|].
+    destruct (HeS b k) as [E|[E1 E2]]; [now left|]. right. split; [exact E1|]. rewrite E2. f_equal.
+    simpl. unfold fset. destruct (N.eqb_spec b a); [contradiction|reflexivity].
+  - exact HeC.
+  - exact HeT.
+Qed.
+
+Lemma wipe_put_ok d p a acc' : loaded_ok d p -> acc_ok d a acc' -> loaded_ok d (p_put (p_remove_storage p a) a acc').
+Proof.
+  intros H Ha b acc. simpl. unfold fset. destruct (N.eqb_spec b a) as [->|]; [|apply H].
+  intros E. inversion E; subst. exact Ha.
+Qed.
+
+Lemma add_contract_ext d p q i p2 :
+  ext d p q -> (forall c, code i = Some c -> db_code d (code_hash i) = c) ->
+  p_add_contract p i = Some p2 -> exists q2, p_add_contract q i = Some q2 /\ ext d p2 q2 /\
+    p_accounts p2 = p_accounts p /\ (loaded_ok d p -> loaded_ok d p2).
+Proof.
+  intros He Hcode Hp. pose proof He as [HeA HeS HeC HeT]. unfold p_add_contract in *.
+  destruct (p_contracts p (code_hash i)) as [c0|] eqn:Ep.
+  - inversion Hp; subst p2. destruct (HeC (code_hash i)) as [E|[E _]]; [|congruence].
+    rewrite E, Ep. exists q. auto.
+  - destruct (code i) as [c|] eqn:Ec; [|discriminate]. inversion Hp; subst p2. clear Hp.
+    destruct (HeC (code_hash i)) as [E|[_ E]].
+    + rewrite E, Ep. eexists. split; [reflexivity|]. split; [|split; [reflexivity|auto]].
+      apply mkExt; auto. intros h. simpl. unfold fset. destruct (h =? code_hash i); [now left|apply HeC].
+    + rewrite E. exists q. split; [reflexivity|]. split; [|split; [reflexivity|auto]].
+      apply mkExt; auto. intros h. simpl. unfold fset. destruct (N.eqb_spec h (code_hash i)) as [->|]; [|apply HeC].
+      left. rewrite E. f_equal. now apply Hcode.
+Qed.
+
+Lemma wiping_ok d a acc :
+  acc_ok d a (fst (p_selfdestruct acc)) /\ acc_ok d a (fst (p_touch_empty acc)) /\
+  forall i ch, acc_ok d a (fst (p_newly_created acc i ch)).
+Proof.
+  destruct acc as [oi st]. unfold acc_ok, p_selfdestruct, p_touch_empty, p_newly_created. simpl.
+  repeat split; intros; try discriminate;
+    try apply known_on_selfdestructed; try apply known_on_touched; destruct st; discriminate.
+Qed.
+
+Lemma change_ok d a acc i ch : acc_ok d a (fst (p_change acc i ch)).
+Proof.
+  destruct acc as [oi st]. unfold acc_ok, p_change. simpl. repeat split; try discriminate;
+    intros H; destruct st, (had_no_nonce_and_code oi); discriminate.
+Qed.
+
+Lemma apply_account_ext d p q a e p' t :
+  db_wf d -> ext d p q -> loaded_ok d p -> code_ok_e d e ->
+  p_apply_account p a e = Some (p', t) ->
+  exists q', p_apply_account q a e = Some (q', t) /\ ext d p' q' /\ loaded_ok d p'.
+Proof.
+  intros Hwf He Hok Hcode Hp. pose proof He as [HeA HeS HeC HeT]. unfold p_apply_account in *.
+  destruct (e_touched e) eqn:Et; cbn [negb] in Hp |- *; [|inversion Hp; subst; eauto].
+  change (p_accounts (p_remove_storage p a) a) with (p_accounts p a) in Hp.
+  change (p_accounts (p_remove_storage q a) a) with (p_accounts q a).
+  assert (Hacc : forall acc, p_accounts p a = Some acc -> p_accounts q a = Some acc).
+  { intros acc E. destruct (HeA a) as [E'|[E' _]]; congruence. }
+  destruct (e_destructed e) eqn:Ed.
+  { destruct (p_accounts p a) as [acc|] eqn:Ea; [|discriminate]. rewrite (Hacc acc eq_refl).
+    destruct (p_selfdestruct acc) as [acc' t0] eqn:Es. inversion Hp; subst p' t. clear Hp.
+    eexists. split; [reflexivity|]. split; [now apply wipe_put_ext|].
+    apply wipe_put_ok; [exact Hok|]. replace acc' with (fst (p_selfdestruct acc)) by now rewrite Es.
+    apply wiping_ok. }
+  destruct (e_created e) eqn:Ec.
+  { destruct (p_accounts p a) as [acc|] eqn:Ea; [|discriminate]. rewrite (Hacc acc eq_refl).
+    destruct (p_newly_created acc (e_info e) (changed_storage (e_storage e))) as [acc' t0] eqn:Es.
+    destruct (p_add_contract (p_put (p_remove_storage p a) a acc') (e_info e)) as [p2|] eqn:Eadd; [|discriminate].
+    inversion Hp; subst p' t. clear Hp.
+    assert (Hok1 : loaded_ok d (p_put (p_remove_storage p a) a acc')).
+    { apply wipe_put_ok; [exact Hok|]. replace acc' with (fst (p_newly_created acc (e_info e) (changed_storage (e_storage e)))) by now rewrite Es.
+      apply wiping_ok. }
+    destruct (add_contract_ext d _ (p_put (p_remove_storage q a) a acc') (e_info e) p2
+                (wipe_put_ext d p q a acc' He) (Hcode Et Ed Ec) Eadd) as (q2 & Hq2 & He2 & Hacc2 & Hok2).
+    rewrite Hq2. eexists. split; [reflexivity|]. split.
+    - eapply ext_eqv; [apply (update_storage_ext d p2 q2 a (changed_storage (e_storage e)) He2)| |]; apply update_or_not_eqv.
+    - intros b acc0 Hb. apply (Hok2 Hok1 b acc0).
+      destruct (changed_storage (e_storage e)); exact Hb. }
+  destruct (info_is_empty (e_info e)) eqn:Ee.
+  { destruct (p_accounts p a) as [acc|] eqn:Ea; [|discriminate]. rewrite (Hacc acc eq_refl).
+    destruct (p_touch_empty acc) as [acc' t0] eqn:Es. inversion Hp; subst p' t. clear Hp.
+    eexists. split; [reflexivity|]. split; [now apply wipe_put_ext|].
+    apply wipe_put_ok; [exact Hok|]. replace acc' with (fst (p_touch_empty acc)) by now rewrite Es.
+    apply wiping_ok. }
+  destruct (p_accounts p a) as [acc|] eqn:Ea; [|discriminate]. rewrite (Hacc acc eq_refl).
+  destruct (p_change acc (e_info e) (changed_storage (e_storage e))) as [acc' t0] eqn:Es.
+  inversion Hp; subst p' t. clear Hp.
+  assert (Hacc' : acc' = fst (p_change acc (e_info e) (changed_storage (e_storage e)))) by now rewrite Es.
+  assert (He1 : ext d (p_put p a acc') (p_put q a acc')).
+  { eapply put_ext; eauto. intros k. subst acc'. unfold p_change. simpl.
+    apply base_changed; [exact Hwf|]. now apply (Hok a acc). }
+  eexists. split; [reflexivity|]. split.
+  - eapply ext_eqv; [apply (update_storage_ext d _ _ a (changed_storage (e_storage e)) He1)| |]; apply update_or_not_eqv.
+  - intros b acc0 Hb. apply (put_ok d p a acc' Hok); [subst acc'; apply change_ok|].
+    destruct (changed_storage (e_storage e)); exact Hb.
+Qed.
+
+Lemma apply_evm_state_ext d es : forall p q p' ts,
+  db_wf d -> ext d p q -> loaded_ok d p -> Forall (fun ae => code_ok_e d (snd ae)) es ->
+  p_apply_evm_state p es = Some (p', ts) ->
+  exists q', p_apply_evm_state q es = Some (q', ts) /\ ext d p' q' /\ loaded_ok d p'.
+Proof.
+  induction es as [|[a e] es IH]; intros p q p' ts Hwf He Hok Hcode Hp; cbn [p_apply_evm_state] in *.
+  - inversion Hp; subst. eauto.
+  - inversion Hcode as [|x l Hc1 Hc2]; subst.
+    destruct (p_apply_account p a e) as [[p1 t]|] eqn:E1; [|discriminate].
+    destruct (p_apply_evm_state p1 es) as [[p2 ts2]|] eqn:E2; [|discriminate].
+    inversion Hp; subst p' ts; clear Hp.
+    destruct (apply_account_ext d p q a e p1 t Hwf He Hok Hc1 E1) as (q1 & Hq1 & He1 & Hok1).
+    destruct (IH p1 q1 p2 ts2 Hwf He1 Hok1 Hc2 E2) as (q2 & Hq2 & He2 & Hok2).
+    exists q2. rewrite Hq1, Hq2. auto.
+Qed.
+
+(* ---------------------------------------------------------------- every operation *)
+Lemma with_ts_ext d p q ts : ext d p q -> ext d (p_with_ts p ts) (p_with_ts q ts).
+Proof. intros [HeA HeS HeC HeT]. apply mkExt; auto. Qed.
+
+Lemma with_ts_ok d p ts : loaded_ok d p -> loaded_ok d (p_with_ts p ts).
+Proof. intros H. exact H. Qed.
+
+Lemma step_ext d p q o p' x :
+  db_wf d -> ext d p q -> loaded_ok d p -> code_ok d o -> p_step d p o = (p', x) -> x <> OutPanic ->
+  exists q', p_step d q o = (q', x) /\ ext d p' q' /\ loaded_ok d p'.
+Proof.
+  intros Hwf He Hok Hcode Hp Hx. pose proof (db_wf_wf0 d Hwf) as Hwf0. destruct o; cbn [p_step] in *.
+  - destruct (p_apply_evm_state p es) as [[p1 ts]|] eqn:E; [|inversion Hp; subst; contradiction].
+    inversion Hp; subst p' x; clear Hp.
+    destruct (apply_evm_state_ext d es p q p1 ts Hwf He Hok Hcode E) as (q1 & Hq1 & He1 & Hok1).
+    rewrite Hq1. eexists. split; [reflexivity|]. rewrite (E_ts _ _ _ He1). split; [now apply with_ts_ext|exact Hok1].
+  - destruct (p_increments d p bs) as [p1 ts] eqn:E. inversion Hp; subst p' x; clear Hp.
+    destruct (increments_ext d bs p q p1 ts Hwf He Hok E) as (q1 & Hq1 & He1 & Hok1).
+    rewrite Hq1. eexists. split; [reflexivity|]. rewrite (E_ts _ _ _ He1). split; [now apply with_ts_ext|exact Hok1].
+  - destruct (p_drains d p ads) as [[[p1 bals] ts]|] eqn:E; [|inversion Hp; subst; contradiction].
+    inversion Hp; subst p' x; clear Hp.
+    destruct (drains_ext d ads p q p1 bals ts Hwf He Hok E) as (q1 & Hq1 & He1 & Hok1).
+    rewrite Hq1. eexists. split; [reflexivity|]. rewrite (E_ts _ _ _ He1). split; [now apply with_ts_ext|exact Hok1].
+  - (* basic *)
+    unfold p_basic in *. destruct (p_load d p a) as [p1 acc] eqn:El. inversion Hp; subst p' x; clear Hp.
+    destruct (load_ext d p q a p1 acc Hwf0 He El) as (q1 & Hq1 & He1 & _ & _ & Hok1).
+    rewrite Hq1. eauto.
+  - (* storage *)
+    pose proof He as [HeA HeS HeC HeT]. unfold p_storage_read in *.
+    destruct (pslot p a k) as [v|] eqn:Ek.
+    + inversion Hp; subst p' x; clear Hp. destruct (HeS a k) as [E|[E _]]; [|congruence].
+      rewrite E, Ek. eauto.
+    + inversion Hp; subst p' x; clear Hp.
+      assert (Hb : (if p_known q a then 0 else db_storage d a k) = (if p_known p a then 0 else db_storage d a k)).
+      { rewrite !p_known_of. apply (base_ext d p q a k Hwf0 He). }
+      destruct (HeS a k) as [E|[_ E]].
+      * rewrite E, Ek, Hb. eexists. split; [reflexivity|]. split; [|exact Hok].
+        apply mkExt; auto. intros b j. rewrite !pslot_fill.
+        destruct ((b =? a) && (j =? k)); [now left|apply HeS].
+      * rewrite E. unfold base_of. rewrite <- p_known_of. exists q. split; [reflexivity|]. split; [|exact Hok].
+        apply mkExt; auto. intros b j. rewrite pslot_fill.
+        destruct (N.eqb_spec b a) as [->|]; simpl; [|apply HeS].
+        destruct (N.eqb_spec j k) as [->|]; [|apply HeS].
+        left. rewrite E. unfold base_of. now rewrite <- p_known_of.
+  - (* code *)
+    pose proof He as [HeA HeS HeC HeT]. unfold p_code in *.
+    destruct (p_contracts p h) as [c|] eqn:Eh.
+    + inversion Hp; subst p' x; clear Hp. destruct (HeC h) as [E|[E _]]; [|congruence]. rewrite E, Eh. eauto.
+    + inversion Hp; subst p' x; clear Hp. destruct (HeC h) as [E|[_ E]].
+      * rewrite E, Eh. eexists. split; [reflexivity|]. split; [|exact Hok].
+        apply mkExt; auto. intros h'. simpl. unfold fset. destruct (h' =? h); [now left|apply HeC].
+      * rewrite E. exists q. split; [reflexivity|]. split; [|exact Hok].
+        apply mkExt; auto. intros h'. simpl. unfold fset. destruct (N.eqb_spec h' h) as [->|]; [now left|apply HeC].
+  - inversion Hp; subst p' x; clear Hp. rewrite (E_ts _ _ _ He).
+    eexists. split; [reflexivity|]. split; [now apply with_ts_ext|exact Hok].
+Qed.
+
+Lemma run_ext d ops : forall p q outs p',
+  db_wf d -> ext d p q -> loaded_ok d p -> Forall (code_ok d) ops ->
+  p_run d p ops = (outs, p') -> ~ In OutPanic outs ->
+  exists q', p_run d q ops = (outs, q') /\ ext d p' q'.
+Proof.
+  induction ops as [|o ops IH]; intros p q outs p' Hwf He Hok Hcode Hp Hnp; cbn [p_run] in *.
+  - inversion Hp; subst. eauto.
+  - inversion Hcode as [|x l Hc1 Hc2]; subst.
+    destruct (p_step d p o) as [p1 x] eqn:Es.
+    assert (Hx : x <> OutPanic).
+    { intros ->. inversion Hp; subst. apply Hnp. left. reflexivity. }
+    destruct (step_ext d p q o p1 x Hwf He Hok Hc1 Es Hx) as (q1 & Hq1 & He1 & Hok1). rewrite Hq1.
+    destruct (p_run d p1 ops) as [xs p2] eqn:Er.
+    assert (Ho : outs = x :: xs /\ p' = p2) by (destruct x; inversion Hp; auto; contradiction).
+    destruct Ho as [-> ->].
+    destruct (IH p1 q1 xs p2 Hwf He1 Hok1 Hc2 Er) as (q2 & Hq2 & He2).
+    { intros Hin. apply Hnp. right. exact Hin. }
+    rewrite Hq2. exists q2. split; [destruct x; try reflexivity; contradiction|exact He2].
+Qed.
+
+Lemma loaded_ok_init d b : loaded_ok d (p_init b).
+Proof. intros a acc H. discriminate. Qed.
+
+(* an extra read before a history changes none of its outputs *)
+Theorem read_insertion d p o ops outs p' :
+  db_wf d -> loaded_ok d p -> is_read o = true -> Forall (code_ok d) ops ->
+  p_run d p ops = (outs, p') -> ~ In OutPanic outs ->
+  exists q', p_run d (fst (p_step d p o)) ops = (outs, q') /\ ext d p' q'.
+Proof.
+  intros Hwf Hok Hr Hcode Hrun Hnp. destruct (p_step d p o) as [p1 x] eqn:Es. simpl.
+  eapply run_ext; eauto. eapply read_ext; eauto. now apply db_wf_wf0.
+Qed.
+
+Lemma run_loaded_ok d ops : forall p outs p',
+  db_wf d -> loaded_ok d p -> Forall (code_ok d) ops -> p_run d p ops = (outs, p') -> ~ In OutPanic outs ->
+  loaded_ok d p'.
+Proof.
+  induction ops as [|o ops IH]; intros p outs p' Hwf Hok Hcode Hp Hnp; cbn [p_run] in *.
+  - inversion Hp; subst. exact Hok.
+  - inversion Hcode as [|x l Hc1 Hc2]; subst.
+    destruct (p_step d p o) as [p1 x] eqn:Es.
+    assert (Hx : x <> OutPanic).
+    { intros ->. inversion Hp; subst. apply Hnp. left. reflexivity. }
+    destruct (step_ext d p p o p1 x Hwf (ext_refl d p) Hok Hc1 Es Hx) as (q1 & _ & _ & Hok1).
+    destruct (p_run d p1 ops) as [xs p2] eqn:Er.
+    assert (Ho : outs = x :: xs /\ p' = p2) by (destruct x; inversion Hp; auto; contradiction).
+    destruct Ho as [-> ->]. eapply IH; eauto. intros Hin. apply Hnp. right. exact Hin.
+Qed.
+
+(* an extra read anywhere in a history from the initial state *)
+Theorem read_insertion_anywhere d b ops1 o ops2 outs1 p1 outs2 p2 :
+  db_wf d -> is_read o = true -> Forall (code_ok d) ops1 -> Forall (code_ok d) ops2 ->
+  p_run d (p_init b) ops1 = (outs1, p1) -> ~ In OutPanic outs1 ->
+  p_run d p1 ops2 = (outs2, p2) -> ~ In OutPanic outs2 ->
+  exists q2, p_run d (fst (p_step d p1 o)) ops2 = (outs2, q2) /\ ext d p2 q2.
+Proof.
+  intros Hwf Hr Hc1 Hc2 Hrun1 Hnp1 Hrun2 Hnp2.
+  apply (read_insertion d p1 o ops2 outs2 p2 Hwf); auto.
+  apply (run_loaded_ok d ops1 (p_init b) outs1 p1 Hwf (loaded_ok_init d b) Hc1 Hrun1 Hnp1).
+Qed.
+
+(* ext-related states answer alike *)
+Lemma ext_answers d p q :
+  db_wf0 d -> ext d p q ->
+  (forall a, p_basic_ans d q a = p_basic_ans d p a) /\
+  (forall a k, p_storage_ans d q a k = p_storage_ans d p a k) /\
+  (forall h, p_code_ans d q h = p_code_ans d p h).
+Proof.
+  intros Hwf [HeA HeS HeC HeT]. repeat split.
+  - intros a. unfold p_basic_ans. destruct (HeA a) as [E|[E1 E2]]; [now rewrite E|]. now rewrite E1, E2.
+  - intros a k. destruct (HeS a k) as [E|[E1 E2]].
+    + unfold p_storage_ans. rewrite E. destruct (pslot p a k); [reflexivity|].
+      rewrite !p_known_of. apply (base_ext d p q a k Hwf). now apply mkExt.
+    + rewrite (ans_base d p a k E1). unfold p_storage_ans. now rewrite E2.
+  - intros h. unfold p_code_ans. destruct (HeC h) as [E|[E1 E2]]; [now rewrite E|]. now rewrite E1, E2.
+Qed.
